@@ -48,4 +48,11 @@ MCSmallRows == 1..3
 MCBigCols == {1, 26, 27, 16384}
 MCBigRows == {1, 2, 1048576}
 MCExportTriples == TRUE
+
+\* thorough tier, Address_big.cfg: the 4x4 grid -- 100 rectangles, 10^4 pairs
+\* (exported), 10^6 triples (laws checked by TLC, not printed; the harness
+\* composes the expected value of a triple from the exported pairs)
+BGModes == {"pair", "triple"}
+BGCols == 1..4
+BGExportTriples == FALSE
 ===========================================================================
